@@ -1,4 +1,5 @@
 import DmrVerif.Lemmas.StorageAttrs
+import DmrVerif.Lemmas.StorageLookup
 import DmrVerif.Gen.Storage
 
 /-!
@@ -498,6 +499,97 @@ example :
     (run h).2 = [.obj 0, .obj 1, .err .typeError, .err .attributeError, .err .typeError, .err .typeError,
                  .err .attributeError, .err .attributeError, .obj 0, .obj 0, .val (.int 5), .obj 2, .err .typeError] ∧
     (run h).1.len = 3 ∧ (run h).1.records.map Rec.callsign = [.str [], .str [88], .str []] := by decide
+
+/-! ## lookups look at data members only (hardening round 4: names / values the code might treat specially)
+
+No dynamic attribute — whatever its **name** (`"disabled"`, any string literal of any version of the code) and
+whatever its value (truthy, falsy, a container) — hides, moves or duplicates a record: `match_incoming`,
+`match_attr`, `match_ip_incoming`, `match_uuid`, `save` and `Repeater.patch` answer from the dictionary and the
+data members alone.  The harness harvests every string / number / tuple literal and every identifier of the
+current source of the storage modules and their callers on every run and uses them as names and values; in the
+model they are names and values like any other. -/
+
+/-- **lookups_depend_on_members_only.** Two states with the same dictionary and, object by object, the same data
+members (`SameCore`; the dynamic attributes are arbitrary on both sides): every operation that does not read a
+dynamic attribute back answers alike, and the states after it are again two such states. -/
+theorem lookups_depend_on_members_only (s s' : Store) (hs : SameCore s s') (op : Op) :
+    SameCore (step s op).1 (step s' op).1 ∧ (op.readsAttr = false → (step s op).2 = (step s' op).2) :=
+  step_sameCore hs op
+
+/-- … along whole continuations: the answers to all operations that do not read a dynamic attribute back agree -/
+theorem histories_depend_on_members_only (s s' : Store) (hs : SameCore s s') (ops : List Op) :
+    answers ops (runFrom s ops).2 = answers ops (runFrom s' ops).2 ∧
+    (runFrom s ops).1.len = (runFrom s' ops).1.len :=
+  ⟨runFrom_sameCore_answers hs ops, by simp only [Store.len, (runFrom_sameCore hs ops).dict]⟩
+
+/-- **lookups_ignore_attributes.** Insert `attr(k, v)` — any record, any name, any value — anywhere into a history:
+every operation after it that does not read a dynamic attribute back answers exactly as without it, and
+`len(storage)` is the same (a record is neither hidden nor created a second time). -/
+theorem lookups_ignore_attributes (h1 h2 : List Op) (i : Nat) (k : String) (v : Val) (op : Op)
+    (hop : op.readsAttr = false) :
+    (step (run (h1 ++ .attr i k v :: h2)).1 op).2 = (step (run (h1 ++ h2)).1 op).2 ∧
+    (step (run (h1 ++ .attr i k v :: h2)).1 op).1.len = (step (run (h1 ++ h2)).1 op).1.len := by
+  simp only [run, runFrom_append, runFrom_cons]
+  have hs := runFrom_sameCore (step_attr_sameCore (runFrom init h1).1 i k v) h2
+  have := step_sameCore hs op
+  exact ⟨this.2 hop, by simp only [Store.len, this.1.dict]⟩
+
+/-- … and the same for a `Repeater.patch` whose entries all name dynamic attributes -/
+theorem lookups_ignore_attribute_patches (h1 h2 : List Op) (i : Nat) (p : Patch) (hp : ∀ e ∈ p, ∃ k, e.1 = .dyn k)
+    (op : Op) (hop : op.readsAttr = false) :
+    (step (run (h1 ++ .patch i p :: h2)).1 op).2 = (step (run (h1 ++ h2)).1 op).2 ∧
+    (step (run (h1 ++ .patch i p :: h2)).1 op).1.len = (step (run (h1 ++ h2)).1 op).1.len := by
+  simp only [run, runFrom_append, runFrom_cons]
+  have hs := runFrom_sameCore (step_patch_dyn_sameCore (runFrom init h1).1 i p hp) h2
+  have := step_sameCore hs op
+  exact ⟨this.2 hop, by simp only [Store.len, this.1.dict]⟩
+
+/-- a record whose dynamic attribute `disabled` is truthy — set through `match_incoming`, `attr`, `save` — is found
+by its address (no twin is created by an auto-creating lookup), by its id, by its `dmr_id` and by its host -/
+example :
+    let h : List Op :=
+      [.matchIncoming A0 true [(.field .dmrId, .int 1001)], .matchIncoming A1 true [(.dyn "disabled", .int 1)],
+       .attr 0 "disabled" (.str [120]), .matchIncoming A0 true [], .matchIncoming A1 true [], .matchUuid (.uuid 0),
+       .matchAttr (.field .dmrId) (.int 1001), .matchIpIncoming [49, 48], .save (some 1) [(.dyn "disabled", .int 0)],
+       .matchIncoming A1 false [(.dyn "disabled", .none)]]
+    okHist init h = true ∧
+    (run h).2 = [.obj 0, .obj 1, .val (.str [120]), .obj 0, .obj 1, .obj 0, .obj 0, .obj 0, .obj 1, .obj 1] ∧
+    (run h).1.len = 2 := by decide
+
+/-! ## container values (hardening round 4: attribute values with identity)
+
+A `dict` / `list` / `set` / `bytearray` handed over as a value is, for code that only stores and compares values,
+an opaque immutable value (`Val.opaque`, `Model/StorageOpaque.lean`): equal to another one iff kind and content
+agree, never equal to a Python `str`.  All theorems above quantify over every `Val`, opaque ones included. -/
+
+/-- **patch_replaces_value.** A patch entry *replaces*: whatever is stored under `k` — a container, anything — after a
+patch that names `k` with a value other than `None` exactly the given value is stored; nothing of the old value
+survives (no merge), and what is stored does not depend on what was stored. -/
+theorem patch_replaces_value (p : Patch) (r : Rec) (k : String) (v old : Val) (hn : (p.map Prod.fst).Nodup)
+    (hm : (Key.dyn k, v) ∈ p) (hv : v ≠ .none) :
+    (applyPatch p r).attr k = v ∧ (applyPatch p (r.setAttr k old)).attr k = v := by
+  constructor
+  · rw [applyPatch_attr_named p r k v hn hm, if_neg hv]
+  · rw [applyPatch_attr_named p _ k v hn hm, if_neg hv]
+
+theorem opaque_values_distinct (k k' : Nat) (c c' : List Nat) :
+    (Val.opaque k c = Val.opaque k' c' ↔ k = k' ∧ c = c') ∧
+    (∀ v : Val, v.isPyStr = true → Val.opaque k c ≠ v) ∧ Val.opaque k c ≠ .none :=
+  ⟨⟨Val.opaque_inj, fun h => by rw [h.1, h.2]⟩, Val.opaque_ne_pystr k c, by simp [Val.opaque]⟩
+
+/-- three peers share one defaults dict `{ts1: 9}` (kind 1); one of them is re-configured with `{ts2: 5}`: it holds
+exactly the new value, the two others keep the defaults; a list (kind 2) with the same content text is another value -/
+example :
+    let d : Val := .opaque 1 [123, 116, 115, 49, 58, 57, 125]
+    let e : Val := .opaque 1 [123, 116, 115, 50, 58, 53, 125]
+    let h : List Op :=
+      [.matchIncoming A0 true [(.dyn "talkgroups", d)], .matchIncoming A1 true [(.dyn "talkgroups", d)],
+       .matchIncoming A2 true [], .attr 2 "talkgroups" d, .matchIncoming A0 false [(.dyn "talkgroups", e)],
+       .matchAttr (.field .callsign) d, .patch 1 [(.field .callsign, d)], .matchAttr (.field .callsign) d,
+       .matchAttr (.field .callsign) (.opaque 2 [123, 116, 115, 49, 58, 57, 125])]
+    okHist init h = true ∧
+    (run h).1.objs.map (fun r => r.attr "talkgroups") = [e, d, d] ∧
+    (run h).2.drop 5 = [.none, .obj 1, .obj 1, .none] := by decide
 
 /-! ## what the code does where the preconditions are crossed (kernel-checked replays)
 
